@@ -363,6 +363,14 @@ StringDictionaryHHTFC::StringDictionaryHHTFC(IteratorDictString *it,
                                     &lenSubstr);
 
     bytesStrings++;
+
+    // The header decoding reads up to two bytes ahead
+    while ((bytesStrings + 2) > reservedStrings)
+      reservedStrings = Reallocate(&textStrings, reservedStrings);
+    textStrings[bytesStrings] = 0;
+    textStrings[bytesStrings + 1] = 0;
+    bytesStrings += 2;
+
     xblStrings.push_back(bytesStrings);
     blStrings = new LogSequence(&xblStrings, bits(bytesStrings));
 
